@@ -325,3 +325,20 @@ ADDENDA6 = {
 }
 for _k, _v in ADDENDA6.items():
     CLAIMS[_k]["text"] = CLAIMS[_k]["text"].rstrip() + " " + _v
+ADDENDA7 = {
+    "C01": "Round 8: bound values are tested for truth only in condition position (HV-TRUTH); shares LIVE-ITER; mappings are not compared by their keys.",
+    "C02": "Round 8: shares EP-OPERAND (sticky flag) and HV-TRUTH.",
+    "C03": "Round 8: the cache and source of the caching iterator are read by its own class only.",
+    "C04": "Round 8: the relationships below an alternatively mapped DAO are the parent's and the complement; the DAO lookup is exact; a Set field comes back as a list (known).",
+    "C07": "Round 8: the DAO lookup is exact; a relationship equality behind a longer chain and a condition on a second variable of the selected variable's hierarchy are rejected (the round-1 finding is repaired).",
+    "C08": "Round 8: the selectors' memories are separate objects (no dict.fromkeys over a constructed value).",
+    "C09": "Round 8: shares HV-TRUTH (a falsy solution is counted).",
+    "C11": "Round 8: shares HV-TRUTH.",
+    "C12": "Round 8: shares EP-BOUND and HV-TRUTH.",
+    "C15": "Round 8: shares SG-PURGE-BOTH.",
+    "C16": "Round 8: shares SG-PURGE-BOTH; the recording hook never iterates the element it is handed.",
+    "C18": "Round 8: the registry holds the registered callables strongly.",
+    "C20": "Round 8: no method of the symbol graph stores a raw instance in the graph.",
+}
+for _k, _v in ADDENDA7.items():
+    CLAIMS[_k]["text"] = CLAIMS[_k]["text"].rstrip() + " " + _v
